@@ -2293,6 +2293,13 @@ func (db *DB) Drop(ctx context.Context) (err error) {
 	}
 	defer func() { _ = ltxFile.Close() }()
 
+	// A database that was created but never written has no page size yet.
+	// The tombstone holds no pages so any valid size will do; snapshots of
+	// the deleted database are written with the same one.
+	if db.pageSize == 0 {
+		db.pageSize = 4096
+	}
+
 	enc := ltx.NewEncoder(ltxFile)
 	if err := enc.EncodeHeader(ltx.Header{
 		Version:          1,
